@@ -123,3 +123,21 @@ ENGINES[0]['serves_properties'].append('C11')
 LEVEL_TEXT['C11'] = 'Differential testing against independent implementations (OpenSSL, nettle) over generated chunkings aimed at block/padding boundaries and over read/update/reset histories; includes single updates >= 2^32 bytes.'
 LEVEL_NOTE['C11'] = 'Trusted: OpenSSL EVP and nettle gosthash94cp (checked against RFC/standard vectors at start-up).'
 TECHNIQUE['C11'] = 'property-based differential testing (rapidcheck) vs OpenSSL/nettle + exhaustive boundary grid + metamorphic large-update cases'
+
+# ---- C16 ---------------------------------------------------------------------------------------
+harness('ini', 'engines/seq/ini.cpp', 'gcc-asan')
+reg(Prop('C16', 'exploration', [
+    Sub('grammar', 'ini', shards=(10, 16), cases=(4000, 40000), maxsize=(60, 120), env={'VERIF_SUB': 'grammar'}),
+    Sub('robust', 'ini', shards=(6, 16), cases=(12000, 150000), maxsize=(100, 200), env={'VERIF_SUB': 'robust'}),
+], rule='grammar: files rendered from a generated AST of the documented format (optional UTF-8 BOM, blank lines, comment lines with arbitrary text incl. "=", quotes, brackets; pre-section key lines; '
+        'uniquely named sections with blanks around the name; key lines with plain / "double" / \'single\' / empty-quoted values, trailing ;/# comments, repeated keys, LF/CRLF, missing final newline, '
+        'lines stretched to 1022-1024 bytes; typed values int/double/boolean/list). The expected content comes from the AST, not from a parser. robust: byte strings assembled from INI fragments, BOMs, NULs, '
+        'raw bytes and long runs (1022..5000). Oracle: consistency invariants + defaults + no leak after free (tracking allocator) + ASan/UBSan for both; exact section/key sets, values and typed getters for grammar files. '
+        'Non-trivial (grammar) = >=2 non-empty sections, >=1 repeated key, >=1 quoted value containing ; or #, and >=1 comment or pre-section line containing "="; (robust) = parser produced >=1 section. distinct = distinct file content.',
+    assumptions=['regions where the documentation is silent are not generated: unquoted empty value (pinned as "key absent" by the shipped test), blanks just inside quotes, duplicate section names, comment markers inside keys, lines beyond 1024 bytes (robustness invariants only)',
+                 'double getter compared with strtod within 1e-11 relative (the library conversion is digit-accumulating, not correctly rounded)', 'gcc -O1 ASan+UBSan build'],
+    corpus_harness='ini', design_ref='4/C16'))
+ENGINES[0]['serves_properties'].append('C16')
+LEVEL_TEXT['C16'] = 'Robustness: generated byte strings must parse without memory errors into a consistent object. Grammar: files generated from the documented format are compared with the content their AST defines (sections, keys, values, typed getters).'
+LEVEL_NOTE['C16'] = 'Trusted: the generator AST as the reference for well-formed files (independent of pinifile.c), strtod/strtol for typed values, ASan/UBSan, tracking allocator for leaks.'
+TECHNIQUE['C16'] = 'property-based testing (rapidcheck): grammar-based generation with constructive oracle + byte-level robustness generation under ASan/UBSan'
